@@ -635,7 +635,7 @@ def restyle_cells(ctx):
 
 def shards(tier):
     return [{"first": i} for i in range(len(menu()))] + \
-        [{"cell": "derived"}, {"cell": "restyle"}]
+        [{"cell": "derived"}, {"cell": "restyle"}, {"cell": "gc-during"}]
 
 
 def run_shard(ctx, shard, tier):
@@ -645,6 +645,10 @@ def run_shard(ctx, shard, tier):
         return
     if shard.get("cell") == "restyle":
         restyle_cells(ctx)
+        ctx.depth_completed = 1
+        return
+    if shard.get("cell") == "gc-during":
+        gc_during_propagation_cells(ctx)
         ctx.depth_completed = 1
         return
     evs = menu()
@@ -677,13 +681,86 @@ def run_shard(ctx, shard, tier):
     ctx.sample({"history": frontier[0] if frontier else [evs[shard["first"]]]})
 
 
+def gc_during_propagation_cells(ctx):
+    """a partner is collected *while* a change is being propagated (a change
+    handler of another partner drops the last reference to it): nothing is
+    raised, the remaining partners are equal afterwards, later changes still
+    propagate"""
+    from traits.api import pop_exception_handler, push_exception_handler
+    for attr in ("x", "l"):
+        for mutual in (False, True):
+            for victim_first in (False, True):
+                case = {"cell": "gc-during", "attr": attr, "mutual": mutual,
+                        "victim_first": victim_first}
+                ctx.case(case)
+                ctx.ev()
+                ctx.tr()
+                a, b = S(), S()
+                keep = [S()]
+                if attr == "l":
+                    a.l, b.l, keep[0].l = [1], [1], [1]
+                vref = weakref.ref(keep[0])
+                if victim_first:
+                    a.sync_trait(attr, keep[0], mutual=mutual)
+                    a.sync_trait(attr, b, mutual=mutual)
+                else:
+                    a.sync_trait(attr, b, mutual=mutual)
+                    a.sync_trait(attr, keep[0], mutual=mutual)
+
+                def drop():
+                    keep.clear()
+                    gc.collect()
+                b.on_trait_change(drop, attr if attr == "x" else "l_items")
+                errors = []
+                push_exception_handler(
+                    lambda *args: errors.append(repr(sys.exc_info()[1])),
+                    reraise_exceptions=False)
+                try:
+                    try:
+                        if attr == "x":
+                            a.x = 7
+                        else:
+                            a.l.append(7)
+                    except Exception as exc:
+                        errors.append(repr(exc))
+                    gone = vref() is None
+                    try:
+                        if attr == "x":
+                            a.x = 8
+                        else:
+                            a.l.append(8)
+                    except Exception as exc:
+                        errors.append(repr(exc))
+                finally:
+                    pop_exception_handler()
+                sig = "C20:gc-during-propagation:%s" % attr
+
+                def bad(kind, msg):
+                    ctx.violation("%s:%s" % (sig, kind), msg, **case)
+                if errors:
+                    bad("raises", "collecting a partner while a change was "
+                        "being propagated raised %s" % errors[:2])
+                    continue
+                if gone:
+                    ctx.outcome("partner-collected")
+                want = 8 if attr == "x" else [1, 7, 8]
+                got = b.x if attr == "x" else list(b.l)
+                if got != want:
+                    bad("not-propagated", "after the collection the "
+                        "remaining partner holds %r, the source %r"
+                        % (got, want))
+                else:
+                    ctx.outcome("converged")
+
+
 def replay(rec):
     from mc.ctx import Ctx
     ctx = Ctx("C20", None, "quick", 0)
     c = rec.get("case") or rec
     if c.get("cell"):
-        derived_cells(ctx, "quick") if c["cell"] == "derived" \
-            else restyle_cells(ctx)
+        {"derived": lambda: derived_cells(ctx, "quick"),
+         "restyle": lambda: restyle_cells(ctx),
+         "gc-during": lambda: gc_during_propagation_cells(ctx)}[c["cell"]]()
         for v in ctx.violations.values():
             print("  violation:", v["sig"], v["msg"])
         return not ctx.violations
